@@ -20,6 +20,7 @@ import core
 import zoo
 from koala import example_graphs as eg
 from koala import plotting as pl
+from koala import graph_utils as gu
 from koala.lattice import Lattice, cut_boundaries
 
 
@@ -150,7 +151,11 @@ def subsets_for(rng, n):
     k = max(1, n // 3)
     idx = np.sort(rng.choice(n, size=k, replace=False))
     mask = np.zeros(n, dtype=bool); mask[idx] = True
-    return [("all", slice(None, None, None), np.arange(n)), ("slice", slice(1, n, 2), np.arange(n)[1:n:2]), ("mask", mask, idx), ("indices", idx, idx)]
+    perm = rng.permutation(n)
+    uns = rng.permutation(idx)
+    return [("all", slice(None, None, None), np.arange(n)), ("slice", slice(1, n, 2), np.arange(n)[1:n:2]), ("mask", mask, idx), ("indices", idx, idx),
+            ("all-permuted", perm, perm), ("all-reversed", np.arange(n)[::-1].copy(), np.arange(n)[::-1].copy()), ("indices-unsorted", uns, uns),
+            ("reversed-slice", slice(None, None, -1), np.arange(n)[::-1])]
 
 
 def check_lattice(ctx, rng, name, l):
@@ -241,15 +246,17 @@ def check_lattice(ctx, rng, name, l):
     # ---- vertices
     fig, ax = plt.subplots()
     try:
-        idx = np.sort(rng.choice(l.n_vertices, size=max(1, l.n_vertices // 2), replace=False))
         vlab = rng.integers(0, 4, size=l.n_vertices)
-        with warnings.catch_warnings():
-            warnings.simplefilter("ignore")
-            pl.plot_vertices(l, labels=vlab, color_scheme=scheme, subset=idx, ax=ax)
-        sc = ax.collections[0]
-        if not np.array_equal(np.asarray(sc.get_offsets()), l.vertices.positions[idx]) or [rgba(c) for c in sc.get_facecolors()] != [rgba(scheme[int(vlab[i])]) for i in idx]:
-            ctx.impl_violation(f"{name} [vertices]: vertices are not drawn at their positions in their label's colour", dict(case=name, what="vertices", lattice=zoo.lat_to_json(l)))
-        ctx.case((name, "vertices"), nontrivial=True)
+        for vname, idx in (("half", np.sort(rng.choice(l.n_vertices, size=max(1, l.n_vertices // 2), replace=False))), ("all-permuted", rng.permutation(l.n_vertices)),
+                           ("all-reversed", np.arange(l.n_vertices)[::-1].copy())):
+            ax.clear()
+            with warnings.catch_warnings():
+                warnings.simplefilter("ignore")
+                pl.plot_vertices(l, labels=vlab, color_scheme=scheme, subset=idx, ax=ax)
+            sc = ax.collections[0]
+            if not np.array_equal(np.asarray(sc.get_offsets()), l.vertices.positions[idx]) or [rgba(c) for c in sc.get_facecolors()] != [rgba(scheme[int(vlab[i])]) for i in idx]:
+                ctx.impl_violation(f"{name} [vertices, subset={vname}]: vertices are not drawn at their positions in their label's colour", dict(case=name, what="vertices", subset=idx.tolist(), lattice=zoo.lat_to_json(l)))
+            ctx.case((name, "vertices", vname), nontrivial=True)
     finally:
         plt.close(fig)
 
@@ -273,6 +280,69 @@ def run(ctx):
             continue
         ctx.count("lattices")
         check_lattice(ctx, rng, name, l)
+    # ---- geometry classes that few lattices contain: edges through a cell corner with crossing (+1,-1) / (-1,+1) / (+-1,+-1), plaquettes that wrap round a cell
+    #      corner (meeting three or four of the cells there).  Many Voronoi lattices and their duals, full selection only (cheap), counted by class.
+    import matplotlib.pyplot as plt
+    scheme = np.array(["#1b9e77", "#d95f02", "#7570b3", "#e7298a"])
+    extra = []
+    for t in range(14 if quick else 80):
+        l = zoo.voronoi(rng, int(rng.integers(12, 36)))
+        extra.append((f"vor-geo#{t}", l))
+        if t % 4 == 0:
+            try:
+                extra.append((f"dual-geo#{t}", gu.make_dual(zoo.voronoi(rng, int(rng.integers(16, 36))))))
+            except Exception:
+                pass
+    found = 0
+    for t in range(300):                                  # make sure the rarest class (anti-diagonal corner edges) is present whatever the seed
+        if found >= (3 if quick else 12):
+            break
+        l = zoo.voronoi(rng, int(rng.integers(10, 36)))
+        c = l.edges.crossing
+        if np.any(c[:, 0] * c[:, 1] == -1):
+            extra.append((f"vor-antidiag#{found}", l)); found += 1
+    for name, l in extra:
+        l = zoo.rebuild(l)
+        if np.any(np.abs(l.edges.vectors) >= 1):
+            continue
+        c = l.edges.crossing
+        if np.any(c[:, 0] * c[:, 1] == -1): ctx.count("lattices_with_antidiagonal_corner_edges")
+        if np.any(c[:, 0] * c[:, 1] == 1): ctx.count("lattices_with_diagonal_corner_edges")
+        labels_full = rng.integers(0, 4, size=l.n_edges)
+        rep = lambda what, **kw: ctx.impl_violation(f"{name} [edges, all]: {what}", dict(case=name, what="edges", subset="all", lattice=zoo.lat_to_json(l), **kw))
+        try:
+            segs, cols, _ = edge_artists(l, labels=labels_full, color_scheme=scheme)
+            if judge_edges(ctx, name, l, np.arange(l.n_edges), labels_full, scheme, segs, cols, rep):
+                ctx.case((name, "edges", "all"), nontrivial=bool(np.any(c != 0)))
+        except Exception as ex:
+            rep(f"plot_edges raised {type(ex).__name__}: {ex}")
+        F = l.n_plaquettes
+        plab = rng.integers(0, 4, size=F)
+        rep = lambda what, **kw: ctx.impl_violation(f"{name} [plaquettes, all]: {what}", dict(case=name, what="plaquettes", subset="all", lattice=zoo.lat_to_json(l), **kw))
+        fig, ax = plt.subplots()
+        try:
+            with warnings.catch_warnings():
+                warnings.simplefilter("ignore")
+                colls = pl.plot_plaquettes(l, labels=plab, color_scheme=scheme, ax=ax)
+            drawn, ref = [], []
+            for i, cc in zip(range(F), colls):
+                for path in cc.get_paths():
+                    V = path.vertices[:-1] if np.allclose(path.vertices[0], path.vertices[-1]) else path.vertices
+                    drawn.append((i, rgba(cc.get_facecolor()[0]), type("P", (), dict(vertices=V))()))
+                if rgba(cc.get_facecolor()[0]) != rgba(scheme[int(plab[i])]):
+                    rep(f"plaquette {i} is drawn in the wrong colour"); break
+            for i in range(F):
+                p = l.plaquettes[i]
+                vec = l.edges.vectors[p.edges] * p.directions[:, None]
+                ref.append((i, l.vertices.positions[p.vertices[0]] + np.cumsum(vec, 0)))
+            ncell = sum(1 for i, pts in ref if (np.floor(pts.min(axis=0)) != np.floor(pts.max(axis=0))).all())
+            if ncell: ctx.count("plaquettes_wrapping_round_a_cell_corner", ncell)
+            if judge_polygons(range(F), ref, drawn, rep):
+                ctx.case((name, "plaquettes", "all"), nontrivial=True)
+        except Exception as ex:
+            rep(f"plot_plaquettes raised {type(ex).__name__}: {ex}")
+        finally:
+            plt.close(fig)
     # ---- intersection helper on rational segments in general position
     G = 64
     n = 200 if quick else 3000
